@@ -37,7 +37,7 @@ EXHAUSTIVE = {'quick': 'step numbers 1..1 000 000, each decoded by the real pars
 QUICK_SEEDS = list(range(16))
 FLOORS = {'quick': {'numbers_decoded': 1000000, 'number_chunks': 20, 'table_cases': 1500, 'targets_with_2plus_vars': 200,
                     'targets_with_2plus_vars_f_not_name_order': 100, 'valid_proof_cases': 100, 'cases_with_Z': 300,
-                    'label_list_len_0': 20, 'label_list_len_30plus': 50, 'wild_whitespace_cases': 300, 'hash_seeds_per_case_min16': 1500,
+                    'label_list_len_0': 20, 'twin_theorem_cases': 100, 'label_list_len_30plus': 50, 'wild_whitespace_cases': 300, 'hash_seeds_per_case_min16': 1500,
                     **{f'seed_runs:{s}': 1500 for s in QUICK_SEEDS}}}
 FLOORS['thorough'] = dict(FLOORS['quick'], numbers_decoded=3000000, number_chunks=60, table_cases=20000,
                           **{f'seed_runs:{s}': 20000 for s in range(64)})
@@ -267,9 +267,15 @@ def shard(ctx):
             c['kind'] = 'nonconventional'
             cases.append(c)
         else:
-            c = mmdb.decode_case(rng)
+            c = mmdb.decode_case(rng, twin=rng.random() < 0.3)
             c['kind'] = 'table'
+            tw = c.pop('twin', None)
             cases.append(c)
+            if tw is not None:
+                # a second theorem of the same database with the same proof text over other variables
+                tw.pop('twin', None)
+                tw['kind'] = 'table'
+                cases.append(tw)
     # every generated text must agree with the oracle's own reading of it (generator self-check)
     for c in cases:
         db = mm.Database(c['text'], verify=False)
@@ -296,6 +302,8 @@ def shard(ctx):
                 ctx.count('reported_only:nonconventional_f_labels_decoded_differently')
             continue
         ctx.count('table_cases')
+        if c.get('twin_of'):
+            ctx.count('twin_theorem_cases')
         if len(seeds) >= 16:
             ctx.count('hash_seeds_per_case_min16')
         if c['kind'] == 'valid_proof':
